@@ -47,6 +47,9 @@ type Root struct {
 	// -parallel); 0 means no limit.
 	Limit   int
 	running int
+	// Sequential makes Run wait for the subtest to finish and Parallel a no-op, like
+	// the T of the standalone testscript command (the T interface allows both styles).
+	Sequential bool
 }
 
 func NewRoot(s *simrt.Sim, epoch time.Time, verbose bool) *Root {
@@ -103,6 +106,9 @@ func (r *Root) Run(name string, f func(testscript.T)) {
 	simrt.Block("T.Run", func() bool {
 		r.mu.Lock()
 		defer r.mu.Unlock()
+		if r.Sequential {
+			return sub.Finished
+		}
 		return st.parallel || sub.Finished
 	})
 }
@@ -136,6 +142,12 @@ func (t *subT) Fatal(args ...any) {
 	runtime.Goexit()
 }
 func (t *subT) Parallel() {
+	if t.r.Sequential {
+		t.r.mu.Lock()
+		t.sub.StartAt = time.Since(t.r.epoch)
+		t.r.mu.Unlock()
+		return
+	}
 	t.r.mu.Lock()
 	t.parallel = true
 	t.r.mu.Unlock()
